@@ -1,22 +1,24 @@
+\* Admission instance of Sessions (what tools/props/c16.py generates as mc_adm.cfg in the thorough tier);
+\* the other instances (per-IP, slab gate, liveness, generators) are written by c16.py into .work/C16.
 SPECIFICATION Spec
 CONSTANTS
   Max = 3
   Socks = {1, 2, 3, 4, 5}
   Toks = {1, 2, 3, 4}
-  Ips = {"i1", "i2"}
-  IpOf <- MC_IpOf
-  Clusters = {"c1", "c2"}
+  Ips = {"i1"}
+  IpOf <- MC_IpOf1
+  Clusters = {"c1"}
   Override <- MC_Override
   OverrideC2 = 1
-  Limits = {0, 1, 2}
+  Limits = {0}
   EvictOn = TRUE
   QT = 1
   Sys = 4
-  MaxBack = 2
+  MaxBack = 1
   PoolCap = 7
-  PopAny = FALSE
-  CreateMayFail = TRUE
   TlsChoices = {TRUE, FALSE}
+  CreateMayFail = TRUE
+  PopAny = FALSE
   Deviations = {}
   Script <- NoScript
   Gen = "off"
